@@ -2,6 +2,7 @@ import Proofs.TermTrunc
 import Proofs.TermDraw
 import Proofs.TermIngest
 import Proofs.PaintLine
+import Proofs.BlameMeta
 /-!
 C09 — output lines are self-contained, well-formed terminal text.
 
@@ -359,5 +360,108 @@ example : balanced "\x1b[1;35m-moved\x1b[m".toList = true ∧ balanced "\x1b[31m
     ¬ selfContained (rightFill "\x1b]8;;http://x\x1b\\open".toList { bg := some (.fixed 52) }) := by decide
 
 end PaintedLine
+
+/-! ### Session 4 (strengthening after seeded change C09-w6-09): what `format::pad` is applied to
+
+`format::pad(s, width, alignment, precision)` is `format!("{s:<width$.precision$}")`: a precision **cuts** the string
+after that many chars. `BlameMeta.formatMeta` (`DeltaModel/BlameMeta.lean`) is `format_blame_metadata` with the arms of
+its field `match` — label, guard, *kind of string the arm hands to `pad`* (a copy of a field of the blame line,
+`delta::format_raw_line`, `format_commit_line_with_osc8_commit_hyperlink`, anything else) — regenerated from the source
+(`Generated.BlameMeta`), and `format_raw_line`'s gate (`config.hyperlinks && io::stdout().is_terminal()`) likewise. -/
+section BlameMetadata
+open BlameMeta BlameMetaProofs
+
+/-- **`pad` with a precision must only see escape-free text** — and then the metadata is well-formed, for every
+`--blame-format` (any number of placeholders; any fill / alignment / width / precision on each), every Config and
+destination of stdout, every blame line whose commit, author and rendered timestamp contain no ESC (commit URLs neither
+ESC nor BEL) and every format string whose literal text contains no ESC: the formatted metadata is *neutral* (it leaves
+any ground, link-free terminal state exactly as it found it: no partial escape sequence, every link opened is closed),
+hence self-contained. The hypothesis `precisionOnPlain` is the invariant: each placeholder that has a precision is served
+by an arm whose string cannot contain escape sequences. -/
+theorem blame_metadata_precision_on_plain_text (env : Env) (cw : Char → Nat) (items : List BlameMeta.Item) (f : Fields)
+    (hf : FieldsOk f) (hlit : ItemsLitOk items) (hprec : precisionOnPlain env items = true) (out : List Char)
+    (h : formatMeta env cw items f = .ok out) :
+    shapeAsModelled = true ∧ Neutral out ∧ selfContained out :=
+  have hn := formatMeta_neutral env cw items f hf hlit hprec out h
+  ⟨BlameMetaProofs.shape_as_modelled, hn, selfContained_of_neutral out hn⟩
+
+/-- **The blame metadata is self-contained**: when stdout is not a terminal (a pipe, a file, delta's own pager) or
+hyperlinks are off, for *every* format string the invariant holds — decided over the generated arm table: every arm of the
+current `format_blame_metadata` that can run then hands `pad` escape-free text — and so the metadata contains no partial
+escape sequence and no unclosed link. A change that makes an arm pad a linked or painted string whenever
+`config.hyperlinks` is set changes the table and this theorem no longer builds. -/
+theorem blame_metadata_self_contained (env : Env) (henv : env.stdoutIsTerminal = false ∨ env.hyperlinks = false)
+    (cw : Char → Nat) (items : List BlameMeta.Item) (f : Fields) (hf : FieldsOk f) (hlit : ItemsLitOk items)
+    (out : List Char) (h : formatMeta env cw items f = .ok out) :
+    shapeAsModelled = true ∧ precisionOnPlain env items = true ∧ selfContained out := by
+  have harms : armsPlainWhen env = true := by
+    obtain ⟨hl, tm⟩ := env
+    rcases henv with h1 | h1
+    · simp only at h1; subst h1; exact arms_plain_off_terminal hl
+    · simp only at h1; subst h1; exact arms_plain_without_hyperlinks tm
+  have hprec := precisionOnPlain_of_armsPlain env harms items
+  exact ⟨BlameMetaProofs.shape_as_modelled, hprec,
+    (blame_metadata_precision_on_plain_text env cw items f hf hlit hprec out h).2.2⟩
+
+def exFields : Fields :=
+  { time := ⟨"2021".toList, [.plain "2021".toList]⟩, author := ⟨"Dan Davison".toList, [.plain "Dan Davison".toList]⟩,
+    commit := ⟨"ea82f2d0".toList, [.linked "https://x/ea82f2d0".toList "ea82f2d0".toList]⟩ }
+
+/-- `{commit:<7.7}|{author:^9.3}|{timestamp}` into a pipe with `--hyperlinks`: the commit is plain and abbreviated. -/
+def exItems : List BlameMeta.Item :=
+  [{ label := some "commit", align := some .left, width := some 7, prec := some 7, suf := "|{author:^9.3}|{timestamp}".toList },
+   { pre := ['|'], label := some "author", align := some .center, width := some 9, prec := some 3, suf := "|{timestamp}".toList },
+   { pre := ['|'], label := some "timestamp" }]
+
+example : (formatMeta { hyperlinks := true } (fun _ => 1) exItems exFields).toOption =
+    some "ea82f2d|   Dan   |2021           ".toList := by decide +kernel
+
+/-- On a terminal the commit is linked; *without* a precision that is fine (`{commit:<8}`, the default): -/
+example : (formatMeta { hyperlinks := true, stdoutIsTerminal := true } (fun _ => 1)
+      [{ label := some "commit", align := some .left, width := some 8 }] exFields).toOption =
+    some "\x1b]8;;https://x/ea82f2d0\x1b\\ea82f2d0\x1b]8;;\x1b\\".toList ∧
+    selfContained "\x1b]8;;https://x/ea82f2d0\x1b\\ea82f2d0\x1b]8;;\x1b\\".toList := by decide +kernel
+
+/-- **The hypothesis is needed, and the unchanged delta violates it on a terminal** (known finding
+`C09-blame-precision-cuts-commit-link-on-terminal`, confirmed on the real binary under a pty): with `--hyperlinks`,
+a commit URL, stdout a terminal and `--blame-format '{commit:<7.7}'`, `format_raw_line` links the commit and the
+precision cuts the string after `ESC ] 8 ; ; h t` — an OSC sequence cut in half, the rest of the row swallowed. -/
+theorem blame_commit_link_cut_on_terminal :
+    precisionOnPlain { hyperlinks := true, stdoutIsTerminal := true }
+      [{ label := some "commit", align := some .left, width := some 7, prec := some 7 }] = false ∧
+    (formatMeta { hyperlinks := true, stdoutIsTerminal := true } (fun _ => 1)
+      [{ label := some "commit", align := some .left, width := some 7, prec := some 7 }] exFields).toOption =
+      some "\x1b]8;;ht".toList ∧
+    ¬ selfContained "\x1b]8;;ht".toList := by decide +kernel
+
+/-- **A whole blame row is self-contained**: the `write!` of `handle_blame_line` (generated `rowPieces`: metadata —
+blanked with `measure_text_width` blanks when the key repeats —, separator prefix, line number, separator suffix, each
+through `Style::paint`) followed by the code as `paint_lines` paints it (`painted_line_self_contained`, state `Blame`).
+Hypotheses: the metadata is neutral (the two theorems above), styles are Rust values, the separator texts and the padded
+number contain no ESC. -/
+theorem blame_row_self_contained (mdata : List Char) (hm : Neutral mdata) (r : RowIn) (hms : Style.wf r.metaStyle)
+    (hss : Style.wf r.sepStyle) (h1 : ESC ∉ r.nrPrefix) (h2 : ESC ∉ r.number) (h3 : ESC ∉ r.nrSuffix)
+    (hcode : selfContained r.code) (out : List Char) (h : blameRow mdata r = .ok out) : selfContained out :=
+  blameRow_selfContained mdata hm r hms hss h1 h2 h3 hcode out h
+
+def exRow : RowIn :=
+  { metaStyle := { bg := some (.fixed 16) }, nrPrefix := ['│'], number := " 12 ".toList, nrSuffix := ['│'],
+    code := " x".toList }
+
+example : (blameRow "ea82f2d ".toList exRow).toOption =
+    some "\x1b[48;5;16mea82f2d \x1b[0m│\x1b[48;5;16m 12 \x1b[0m│ x".toList := by decide +kernel
+
+/-- **The line-number gutter pads numbers, not links**: in every arm of `format_line_number` (generated `gutterArms`)
+what goes through `pad` is the number, and the OSC 8 link is put around the *padded* text; such a field is neutral for
+every width, alignment and link target. -/
+theorem gutter_pads_numbers_only (digits : List Char) (hd : ESC ∉ digits) (w : Nat) (al : BlameMeta.Align)
+    (url : Option (List Char)) (hu : ∀ u, url = some u → ESC ∉ u ∧ BEL ∉ u) :
+    gutterPadsNumbersOnly = true ∧ Neutral (gutterField digits w al url) :=
+  ⟨by decide +kernel, gutterField_neutral digits hd w al url hu⟩
+
+example : gutterField "12".toList 4 .center (some "file:///f:12".toList) =
+    "\x1b]8;;file:///f:12\x1b\\ 12 \x1b]8;;\x1b\\".toList := by decide +kernel
+
+end BlameMetadata
 
 end C09
